@@ -3,6 +3,7 @@
 package main
 
 import (
+	"encoding/json"
 	"fmt"
 	"math"
 	"os"
@@ -193,10 +194,98 @@ func kvsDesc(l []kvt) []string {
 	return out
 }
 
+// viaHelper builds the key-value through the package-level helpers (attribute.Bool, attribute.Int64Slice, ...)
+// or through the Key methods (Key.Bool, ...) instead of a struct literal.
+func viaHelper(x kvt, keyMethod, altInt bool) attribute.KeyValue {
+	k := attribute.Key(x.k)
+	v := x.v
+	ints := func() []int64 {
+		o := make([]int64, len(v.ns))
+		for i, n := range v.ns {
+			o[i] = int64(n)
+		}
+		return o
+	}
+	switch v.t {
+	case 1:
+		if keyMethod {
+			return k.Bool(v.b)
+		}
+		return attribute.Bool(x.k, v.b)
+	case 2:
+		switch {
+		case keyMethod && altInt:
+			return k.Int(int(int64(v.n)))
+		case keyMethod:
+			return k.Int64(int64(v.n))
+		case altInt:
+			return attribute.Int(x.k, int(int64(v.n)))
+		}
+		return attribute.Int64(x.k, int64(v.n))
+	case 3:
+		if keyMethod {
+			return k.Float64(math.Float64frombits(v.n))
+		}
+		return attribute.Float64(x.k, math.Float64frombits(v.n))
+	case 4:
+		switch {
+		case keyMethod:
+			return k.String(v.s)
+		case altInt:
+			return attribute.Stringer(x.k, stringer(v.s))
+		}
+		return attribute.String(x.k, v.s)
+	case 5:
+		if keyMethod {
+			return k.BoolSlice(append([]bool(nil), v.bs...))
+		}
+		return attribute.BoolSlice(x.k, append([]bool(nil), v.bs...))
+	case 6:
+		if altInt {
+			is := make([]int, len(v.ns))
+			for i, n := range v.ns {
+				is[i] = int(int64(n))
+			}
+			if keyMethod {
+				return k.IntSlice(is)
+			}
+			return attribute.IntSlice(x.k, is)
+		}
+		if keyMethod {
+			return k.Int64Slice(ints())
+		}
+		return attribute.Int64Slice(x.k, ints())
+	case 7:
+		fs := make([]float64, len(v.ns))
+		for i, n := range v.ns {
+			fs[i] = math.Float64frombits(n)
+		}
+		if keyMethod {
+			return k.Float64Slice(fs)
+		}
+		return attribute.Float64Slice(x.k, fs)
+	case 8:
+		if keyMethod {
+			return k.StringSlice(append([]string(nil), v.ss...))
+		}
+		return attribute.StringSlice(x.k, append([]string(nil), v.ss...))
+	}
+	return attribute.KeyValue{Key: k}
+}
+
+type stringer string
+
+func (s stringer) String() string { return string(s) }
+
 func toAttrs(l []kvt, r *vgen.Rand) []attribute.KeyValue {
 	out := make([]attribute.KeyValue, len(l))
 	for i, x := range l {
-		out[i] = attribute.KeyValue{Key: attribute.Key(x.k), Value: x.v.attr(r != nil && r.Chance(1, 3))}
+		switch {
+		case r != nil && r.Chance(1, 3):
+			out[i] = viaHelper(x, r.Bool(), r.Bool())
+		default:
+			out[i] = attribute.KeyValue{Key: attribute.Key(x.k), Value: x.v.attr(r != nil && r.Chance(1, 3))}
+		}
 	}
 	return out
 }
@@ -649,6 +738,127 @@ func genFilter(r *vgen.Rand, c genCfg, input []kvt, allowNil bool) fspec {
 	}
 }
 
+// ---- API entry points judged directly (no model needed: each is defined by ToSlice) ----
+
+type recEncoder struct {
+	id  attribute.EncoderID
+	got []attribute.KeyValue
+}
+
+func (e *recEncoder) Encode(it attribute.Iterator) string {
+	for it.Next() {
+		e.got = append(e.got, it.Attribute())
+	}
+	return fmt.Sprintf("rec%d", len(e.got))
+}
+func (e *recEncoder) ID() attribute.EncoderID { return e.id }
+
+var customEncoderID = attribute.NewEncoderID()
+
+func sameKVs(a, b []attribute.KeyValue) bool { return kvsCoq(fromAttrs(a)) == kvsCoq(fromAttrs(b)) }
+
+func apiChecks(w *vgen.Writer, desc any, set *attribute.Set) {
+	ts := set.ToSlice()
+	if !set.Equivalent().Valid() {
+		w.Violation("Equivalent() of a constructed set is not Valid", desc)
+	}
+	// MarshalLog: key -> Emit
+	if m, ok := set.MarshalLog().(map[string]string); !ok || len(m) != len(ts) {
+		w.Violation("MarshalLog is not a map with one entry per attribute", desc)
+	} else {
+		for _, a := range ts {
+			if m[string(a.Key)] != a.Value.Emit() {
+				w.Violation("MarshalLog entry differs from Value.Emit", desc)
+				break
+			}
+		}
+	}
+	// MarshalJSON: one {Key, Value{Type, Value}} per attribute, in order; fails only for non-finite floats
+	finite := true
+	for _, a := range ts {
+		fs := a.Value.AsFloat64Slice()
+		if a.Value.Type() == attribute.FLOAT64 {
+			fs = []float64{a.Value.AsFloat64()}
+		}
+		for _, f := range fs {
+			if math.IsNaN(f) || math.IsInf(f, 0) {
+				finite = false
+			}
+		}
+	}
+	b, err := set.MarshalJSON()
+	if (err == nil) != finite {
+		w.Violation(fmt.Sprintf("MarshalJSON error=%v for a set with finite=%v floats", err, finite), desc)
+	} else if err == nil {
+		var out []struct {
+			Key   string
+			Value struct {
+				Type  string
+				Value any
+			}
+		}
+		if e := json.Unmarshal(b, &out); e != nil || len(out) != len(ts) {
+			w.Violation("MarshalJSON is not an array with one element per attribute", desc)
+		} else {
+			for i, a := range ts {
+				if out[i].Value.Type != a.Value.Type().String() || (utf8.ValidString(string(a.Key)) && out[i].Key != string(a.Key)) {
+					w.Violation("MarshalJSON element differs from the attribute at its position", desc)
+					break
+				}
+			}
+		}
+	}
+	// a user-supplied Encoder is handed an iterator over exactly the contents
+	enc := &recEncoder{id: customEncoderID}
+	if got := set.Encoded(enc); got != fmt.Sprintf("rec%d", len(ts)) || !sameKVs(enc.got, ts) {
+		w.Violation("Encoded(custom encoder) did not pass the set's contents to the encoder", desc)
+	}
+	// accessors of the wrong type give nil; AsInterface has the matching dynamic type
+	for _, a := range ts {
+		v := a.Value
+		t := v.Type()
+		if (t != attribute.BOOLSLICE && v.AsBoolSlice() != nil) || (t != attribute.INT64SLICE && v.AsInt64Slice() != nil) ||
+			(t != attribute.FLOAT64SLICE && v.AsFloat64Slice() != nil) || (t != attribute.STRINGSLICE && v.AsStringSlice() != nil) {
+			w.Violation("a slice accessor of the wrong type returned a non-nil slice", desc)
+			break
+		}
+		ok := true
+		switch x := v.AsInterface().(type) {
+		case bool:
+			ok = t == attribute.BOOL && x == v.AsBool()
+		case int64:
+			ok = t == attribute.INT64 && x == v.AsInt64()
+		case float64:
+			ok = t == attribute.FLOAT64 && math.Float64bits(x) == math.Float64bits(v.AsFloat64())
+		case string:
+			ok = t == attribute.STRING && x == v.AsString()
+		case []bool:
+			ok = t == attribute.BOOLSLICE && len(x) == len(v.AsBoolSlice())
+		case []int64:
+			ok = t == attribute.INT64SLICE && len(x) == len(v.AsInt64Slice())
+		case []float64:
+			ok = t == attribute.FLOAT64SLICE && len(x) == len(v.AsFloat64Slice())
+		case []string:
+			ok = t == attribute.STRINGSLICE && len(x) == len(v.AsStringSlice())
+		default:
+			ok = t == attribute.INVALID
+		}
+		if !ok {
+			w.Violation("AsInterface disagrees with Type()/As*()", desc)
+			break
+		}
+	}
+	// the deprecated Sortable still orders by key
+	srt := make(attribute.Sortable, len(ts))
+	for i, a := range ts {
+		srt[len(ts)-1-i] = a
+	}
+	sort.Sort(&srt)
+	if !sameKVs([]attribute.KeyValue(srt), ts) {
+		w.Violation("sort.Sort(Sortable) of the reversed contents is not the set's order", desc)
+	}
+}
+
 // ---- permutations ----
 
 func permutations(n int) [][]int {
@@ -716,7 +926,23 @@ func main() {
 		desc := map[string]any{"op": "NewSetWithFiltered", "input": kvsDesc(input), "filter": f.String()}
 		guard(desc, func() {
 			kvs := toAttrs(input, r)
-			set, removed := attribute.NewSetWithFiltered(kvs, f.goFilter())
+			var set attribute.Set
+			var removed []attribute.KeyValue
+			var tmp attribute.Sortable
+			entry := r.Intn(4)
+			switch {
+			case entry == 1:
+				set, removed = attribute.NewSetWithSortableFiltered(kvs, &tmp, f.goFilter())
+			case entry == 2 && f.kind == 0:
+				set = attribute.NewSetWithSortable(kvs, &tmp)
+			case entry == 3 && f.kind == 0:
+				set = attribute.NewSet(kvs...)
+			default:
+				entry = 0
+				set, removed = attribute.NewSetWithFiltered(kvs, f.goFilter())
+			}
+			w.Tally("new:entry=" + []string{"NewSetWithFiltered", "NewSetWithSortableFiltered", "NewSetWithSortable", "NewSet"}[entry])
+			apiChecks(w, desc, &set)
 			after := fromAttrs(kvs)
 			ts := set.ToSlice()
 			// iteration must show what ToSlice shows
@@ -821,6 +1047,35 @@ func main() {
 		if np.Encoded(attribute.DefaultEncoder()) != "" || z.Encoded(nil) != "" {
 			w.Violation("Encoded of nil set / nil encoder is not empty", "zero Set")
 		}
+		if _, ok := np.Get(0); ok || len(np.ToSlice()) != 0 || !np.Equals(nil) || !z.Equals(nil) || !np.Equivalent().Valid() || (attribute.Distinct{}).Valid() {
+			w.Violation("nil *Set: Get / ToSlice / Equals(nil) / Equivalent / zero Distinct misbehave", "nil Set")
+		}
+		it := np.Iter()
+		if it.Next() || it.Len() != 0 || len(it.ToSlice()) != 0 {
+			w.Violation("iterator of a nil *Set is not empty", "nil Set")
+		}
+		if k, d := z.Filter(func(attribute.KeyValue) bool { return false }); k.Len() != 0 || len(d) != 0 || !k.Equals(attribute.EmptySet()) {
+			w.Violation("Filter of the zero Set is not empty", "zero Set")
+		}
+		one := attribute.NewSet(attribute.String("k", "v"))
+		for _, pair := range [][2]*attribute.Set{{np, &one}, {&one, np}, {&z, &one}, {&one, &z}, {np, np}} {
+			mi := attribute.NewMergeIterator(pair[0], pair[1])
+			n := 0
+			for mi.Next() {
+				n++
+				if n > 2 || mi.Attribute() != attribute.String("k", "v") {
+					w.Violation("MergeIterator with a nil / zero operand yields something else than the other operand", "nil Set")
+					break
+				}
+			}
+			if want := pair[0].Len() + pair[1].Len(); n != want {
+				w.Violation("MergeIterator with a nil / zero operand has the wrong length", "nil Set")
+			}
+		}
+		if id := attribute.NewEncoderID(); !id.Valid() || id == attribute.NewEncoderID() || id == attribute.DefaultEncoder().ID() || (attribute.EncoderID{}).Valid() || !attribute.DefaultEncoder().ID().Valid() {
+			w.Violation("EncoderID: not valid / not unique", "EncoderID")
+		}
+		apiChecks(w, "zero Set", &z)
 	})
 
 	// ---- generated ----
@@ -840,6 +1095,14 @@ func main() {
 		addNew(input, fspec{kind: 3, mask: 0b10110}, "new-long")
 	}
 
+	for _, n := range []int{2, 11, 13, 40} { // all keys equal: one survivor, the last
+		var in []kvt
+		for i := 0; i < n; i++ {
+			in = append(in, kvt{k: "same", v: val{t: 2, n: uint64(i)}})
+		}
+		addNew(in, fspec{}, "new-all-equal")
+		addNew(in, fspec{kind: 2, keys: []string{"same"}}, "new-all-equal")
+	}
 	nMono := o.Count(90, 1500)
 	for i := 0; i < nMono; i++ {
 		in := genMonotone(r, i%3 != 0)
